@@ -40,12 +40,12 @@ def main():
     sh(f"cp /repo/ethosu/mlw_codec*.so {WT}/ethosu/")
     try:
         for pid in props:
-            src = f"/tmp/seed/{pid}/out"
+            src = f"{os.environ.get('SEED_ROOT', '/tmp/seed')}/{pid}/out"
             for patch in sorted(glob.glob(f"{src}/patch*.diff")):
                 k = re.search(r"patch(\d+)\.diff", patch).group(1)
                 demo = f"{src}/demo{k}.py"
                 meta = f"{src}/meta{k}.json"
-                dest = f"/verif/seeded/{pid}-{k}"
+                dest = f"/verif/seeded/{pid}-{os.environ.get('SEED_TAG', '')}{k}"
                 if os.path.isdir(dest):
                     print(pid, k, "already filed")
                     continue
